@@ -982,6 +982,7 @@ func explore(job *simh.Job, out *simh.Out) {
 		}
 		out.Line(map[string]interface{}{"t": "start", "seed": seed})
 		in := genInput(seed)
+		simh.StreamReplay(job, func() interface{} { return mkReplay(job, seed, in, nil, "crash", nil) })
 		v, order, oracle, st := evaluate(&in, seed, nOrders, nil)
 		sum.Runs++
 		sum.SeedNext = seed + 1
